@@ -58,6 +58,31 @@ theorem C06_queue_is_standard (count : Nat) (h2 : 2 ≤ count) (h10 : count ≤ 
   have : count = 2 ∨ count = 3 ∨ count = 4 ∨ count = 5 ∨ count = 6 ∨ count = 7 ∨ count = 8 ∨ count = 9 ∨ count = 10 := by omega
   rcases this with h | h | h | h | h | h | h | h | h <;> subst h <;> decide
 
+/-- D26: the button and the small blind bust in the same hand and newcomers sit beyond them: the big blind passes the
+dead button seat. 6 seats, hand played with D=0 SB=1 BB=5; seats 0 and 1 bust, newcomers wait on seats 2 and 4. -/
+def witnessD26 : SM.State :=
+  { maxSeat := 6, rule := .default, isInit := true, dealer := 0, sb := 1, bb := 5,
+    seats := SM.seatsOfList [
+      some { id := 1, isIn := true, between := false, hasChips := false },
+      some { id := 2, isIn := true, between := false, hasChips := false },
+      some { id := 5, isIn := true, between := true, hasChips := true }, none,
+      some { id := 4, isIn := true, between := true, hasChips := true },
+      some { id := 3, isIn := true, between := false, hasChips := true }] }
+
+def witnessD26Players : List Player :=
+  [{ id := 1, seat := 0, bankroll := 0, isIn := true }, { id := 2, seat := 1, bankroll := 0, isIn := true },
+   { id := 3, seat := 5, bankroll := 2349, isIn := true }, { id := 4, seat := 4, bankroll := 104, isIn := true },
+   { id := 5, seat := 2, bankroll := 267, isIn := true }]
+
+/-- the rotation is accepted with D=1 (dead), SB=5, BB=2 — the button seat lies between the small and the big blind —
+and the label walk gives the player on the small-blind seat `dealer`; nobody is labelled `sb`: the full clause
+"a dealt-in player in the small-blind seat is labelled sb" fails -/
+theorem C06_sb_label_fails_on_witness :
+    (SM.rotateDefault witnessD26).2 = .ok ∧
+    ((SM.rotateDefault witnessD26).1.dealer, (SM.rotateDefault witnessD26).1.sb, (SM.rotateDefault witnessD26).1.bb) = (1, 5, 2) ∧
+    (assignPositions (SM.rotateDefault witnessD26).1 witnessD26Players).map (fun ps => ps.map (fun p => (p.id, p.positions))) =
+      some [(1, []), (2, []), (3, ["dealer"]), (4, ["ug"]), (5, ["bb"])] := by decide
+
 -- non-vacuity + an end-to-end instance: a 4-seat table, three dealt in, labels as the spec's monitor demands
 example : let t := gateFire (setup (start (join (join (join (reserve (reserve (reserve (create exCfg exBlind)
       { id := 1, chips := 500, seat := 0 } []).1 { id := 2, chips := 300, seat := 2 } []).1 { id := 3, chips := 200, seat := 3 } []).1
